@@ -200,6 +200,26 @@ class PathRules:
                     n += 1
                     rep.fail(rule, b.id, "%s: destination.create_file() site present" % name,
                              "the stream route's creation of the destination was not found (moved where the ordering rule cannot see it)", b.span)
+            # ... and that is the only thing the transfer itself refuses: every error built here (or in a private helper that gets
+            # (self, destination) passed through) sits on the destination-exists edge.  A second home-made refusal (e.g. a
+            # string comparison of the two paths that forgets they may live on different filesystems) rejects valid transfers
+            for cb_ in list(self.inter.code_bodies(b)) + self.passthrough_helpers(name):
+                for blk in cb_.blocks:
+                    if blk.cleanup:
+                        continue
+                    for st in blk.stmts:
+                        if st.kind == "assign" and st.rv.kind == "agg" and st.rv.agg.get("adt") == "error::VfsErrorKind":
+                            gs_ = self.guards(cb_, blk.idx)
+                            on_edge = self.g_exists(gs_, lambda t: self.is_arg(t, 1), True)
+                            # (a refusal that first establishes that both paths live on the same filesystem instance concerns
+                            # the nested-transfer case the contract leaves open; it is not a refusal of a valid transfer)
+                            same_fs = any(g[0] == "bool" and g[2] is True and g[1][0] == "call" and g[1][1] == "Arc::ptr_eq" for g in gs_)
+                            on_edge = on_edge or same_fs
+                            n += 1
+                            rep.ob(rule, b.id, "%s: refuses nothing but an existing destination" % name, on_edge,
+                                   "on the destination.exists() edge" if on_edge else
+                                   "%s builds an error (%s) that is not the existing-destination refusal: transfers the contract allows "
+                                   "are rejected by the path layer itself" % (name, st.rv.agg.get("variant")), st.line)
             # the refusal builds an error
             ss = self.sites(name, lambda s: sname(s.path) == "exists")
             has_refusal = False
@@ -578,7 +598,7 @@ class PathRules:
             rf = ResultFlow(self.facts, cb)
             for (s_, d_, variant, eterm) in rf.kind_switch_edges():
                 if variant is None:
-                    continue
+                    variant = "<any other kind>"   # the catch-all arm: it must lead to the error return only
                 # does this arm continue the loop (reach another create_dir attempt or an Ok return)?
                 tr = get_tracer(self.facts, cb)
                 reach = tr.cfg.reachable_from(d_)
